@@ -440,11 +440,4 @@ TESTS = [
 ]
 
 
-def _kf_unbounded(case, subcheck, detail):
-    """boundsconstrain(min, max) [symbolic=True] with no finite bound at all: simplify('') raises"""
-    return (subcheck == 'C13.no_crash' and 'lo' in case and case.get('symbolic') is True
-            and all(v in (None, 'inf', '-inf') for v in case['lo'] + case['hi'])
-            and detail.get('exception') == 'ZeroDivisionError')
-
-
-KNOWN = {'F22-boundsconstrain-symbolic-no-finite-bound-crashes': _kf_unbounded}
+KNOWN = {}
